@@ -184,7 +184,11 @@ class Parser(object):
                      | ID plain_string
         """
 
-        p[0] = str(p[1]) + p[2]
+        # Keep the text exactly as written: the spaces between words, and the spelling of embedded numbers
+        raw = p.lexer.lexdata[p.lexpos(1) : p.lexpos(2)]
+        if any(c in raw for c in "\r\n#"):
+            raw = str(p[1])
+        p[0] = raw + p[2]
 
     def p_permissive_plain_string(self, p):
         """
